@@ -12,10 +12,12 @@ SPEC = dict(
                'properties verified against their bodies and used modularly. shift: intervals under a shift are bounded only (VC undecided). '
                'random.shuffle / sorted(key=) / zip outside the subset (shuffle, sort_residues: bounded). Trusted: pyvc, z3/cvc5.',
     design_ref='DESIGN.md section 6, C11',
-    contracts=['annot'],
+    contracts=['annot', 'wrappers'],
     bounded=[dict(name='C11-bounded', script='bounded/C11.py')],
     replay_finder='bounded/C11.py',
-    proved_clauses=['slice: residues, residue modifications exactly those of the range (re-indexed), fully contained intervals exactly (order '
+    proved_clauses=['string-level wrappers reverse / shift / span_to_sequence (and strip_mods, condense_static_mods): the annotation method in copy mode with the '
+                    'wrapper\'s own arguments, then the serializer (contracts/wrappers.py)',
+                    'slice: residues, residue modifications exactly those of the range (re-indexed), fully contained intervals exactly (order '
                     'kept, counted by the fold CNT), nterm iff start==0, cterm iff stop==n, globals kept, argument unchanged / inplace equal',
                     'shift: rotation of residues, modifications move to (p-k) mod n and no other, termini and globals stay, frame',
                     'reverse: reversal, modifications to n-1-p, intervals [s,e)->[n-e,n-s), termini stay or swap, globals, frame'],
